@@ -184,7 +184,7 @@ fn handle_vote_single(a: u8) {
         assert!(env.core.round == s0.round && env.core.high_qc.round == s0.hq, "C10 round/high_qc changed by a stale vote");
         assert_untouched(&env, &s0, 0);
     } else if a >= 4 || !ok {
-        assert!(res.is_err(), "C04 invalid vote accepted");
+        assert!(res.is_err(), "C04/C19 invalid vote accepted (unverified votes must never reach the aggregator)");
         assert_untouched(&env, &s0, 0);
     } else {
         assert!(res.is_ok());
@@ -679,3 +679,123 @@ fn hp_valid_tc() { handle_proposal_tc(3) }
 #[kani::unwind(12)]
 #[kani::stub(std::fmt::format, stub_format)]
 fn hp_valid_tc_stale() { handle_proposal_tc(12) }
+
+// ===================================================================================== round 5 additions
+/// A vote that names the NODE ITSELF as author (the loop-back path and the network path share `handle_vote`, and the author
+/// field is chosen by the sender): it must be verified like any other (seeded changes C04-5 / C19-5).
+#[kani::proof]
+#[kani::unwind(12)]
+#[kani::stub(std::fmt::format, stub_format)]
+fn hv_single_self() { handle_vote_single(0) }
+
+/// One timeout message through the real `handle_timeout`: author concrete per harness (member 1, the node itself 0, the
+/// non-member 4), signature validity symbolic, round symbolic; `bad_qc`: the embedded high QC is a non-genesis QC without votes
+/// (must fail verification) instead of the genesis QC.
+fn handle_timeout_single(a: u8, bad_qc: bool) {
+    store::reset();
+    let mut env = mk_core(0, &EQ4);
+    any_node_state(&mut env, Digest::default());
+    let ok: bool = vwit::any_bool();
+    let r: Round = vwit::any_u64();
+    vwit::assume(r < (1u64 << 62));
+    let high_qc = if bad_qc {
+        let hr: Round = vwit::any_u64();
+        vwit::assume(hr >= 1 && hr < (1u64 << 62));
+        QC { hash: Digest(crypto::DBytes([7; 8])), round: hr, votes: Vec::new() }
+    } else {
+        QC::genesis()
+    };
+    let mut t = Timeout { high_qc, round: r, author: key(a), signature: Signature::default() };
+    let wrong = any_digest();
+    vwit::assume(wrong != t.digest());
+    t.signature = if ok { sig(a, &t.digest()) } else { sig(a, &wrong) };
+    let s0 = snap(&env);
+    let res = run_ready(env.core.handle_timeout(&t));
+    if r < s0.round {
+        assert!(res.is_ok(), "stale timeout must be ignored silently");
+        assert_untouched(&env, &s0, 0);
+    } else if a >= 4 || !ok || bad_qc {
+        assert!(res.is_err(), "C04/C19/C10 invalid timeout accepted (bad signature, non-member, or unverifiable embedded QC)");
+        assert_untouched(&env, &s0, 0);
+    } else {
+        assert!(res.is_ok());
+        // a single timeout (stake 1 of 4) carrying the genesis QC: no certificate, no round change, nothing sent
+        assert!(env.core.round == s0.round && env.core.high_qc.round == s0.hq, "C10 round/high_qc moved without a certificate");
+        assert!(sent_len() == 0 && env.rx_proposer.len() == 0, "C09 proposal requested without entering a new round");
+        assert!(env.rx_commit.len() == 0, "C05 a timeout caused a commit");
+        assert!(!env.core.aggregator.verif_is_empty());
+    }
+    vwit::cover!(a >= 4 || bad_qc || (res.is_ok() && r >= s0.round));
+    vwit::cover!(r < s0.round || res.is_err());
+    std::mem::forget(res);
+    std::mem::forget(t);
+    std::mem::forget(env);
+}
+macro_rules! hto_h {
+    ($name:ident, $a:expr, $bad:expr) => {
+        #[kani::proof]
+        #[kani::unwind(12)]
+        #[kani::stub(std::fmt::format, stub_format)]
+        fn $name() {
+            handle_timeout_single($a, $bad)
+        }
+    };
+}
+hto_h!(hto_single, 1, false);
+hto_h!(hto_single_self, 0, false);
+hto_h!(hto_single_nonmember, 4, false);
+hto_h!(hto_bad_qc, 1, true);
+hto_h!(hto_bad_qc_self, 0, true);
+
+/// An INVALID proposal (1: block signature wrong, 2: one QC vote wrong) from the right leader whose single batch is not in the
+/// store: it must be rejected outright - not parked for its payload (a parked block later re-enters through the loop-back
+/// path, which trusts it) - and must not make the node ask the mempool for anything (seeded change C05-5).
+fn handle_proposal_payload_bad(bad: u8) {
+    store::reset();
+    let mut env = mk_core(1, &EQ4);
+    let b0 = blk(1, 5, Digest::default(), 0);
+    let d0 = b0.digest();
+    env.store.preload(d0.to_vec(), bincode::serialize(&b0).unwrap());
+    let b1 = blk(2, 6, d0.clone(), 5);
+    let d1 = b1.digest();
+    env.store.preload(d1.to_vec(), bincode::serialize(&b1).unwrap());
+    let batch = any_digest();
+    vwit::assume(d0 != d1 && d0 != Digest::default() && d1 != Digest::default() && batch != d0 && batch != d1);
+    // at most one lookup is tolerated (the unchanged code performs none: verification comes first); it misses
+    store::script_strict(&[store::MISS]);
+    env.core.last_committed_round = 4;
+    any_node_state_at(&mut env, d0.clone(), 7);
+    let mut qc = qc_of(&b1, &[0, 2, 3]);
+    if bad == 2 {
+        let wrong = any_digest();
+        vwit::assume(wrong != qc.digest());
+        qc.votes[1].1 = sig(2, &wrong);
+    }
+    let mut b = Block { qc, tc: None, author: key(3), round: 7, payload: vec![batch.clone()], signature: Signature::default() };
+    let bd = b.digest();
+    vwit::assume(bd != d0 && bd != d1 && bd != batch);
+    b.signature = if bad == 1 {
+        let wrong = any_digest();
+        vwit::assume(wrong != bd);
+        sig(3, &wrong)
+    } else {
+        sig(3, &bd)
+    };
+    let s0 = snap(&env);
+    let res = run_ready(env.core.handle_proposal(&b));
+    assert!(res.is_err(), "C04/C05 invalid proposal with a missing batch not rejected (parked unverified: it re-enters through the trusted loop-back path)");
+    assert!(env.pw.len() == 0, "C05 unverified block parked at the payload waiter: it re-enters through the trusted loop-back path");
+    assert_untouched(&env, &s0, 0);
+    vwit::cover!(s0.lv < 7 && s0.hq == 5);
+    std::mem::forget(res);
+    std::mem::forget((b, b0, b1, d0, d1, batch));
+    std::mem::forget(env);
+}
+#[kani::proof]
+#[kani::unwind(12)]
+#[kani::stub(std::fmt::format, stub_format)]
+fn hp_bad_sig_payload_missing() { handle_proposal_payload_bad(1) }
+#[kani::proof]
+#[kani::unwind(12)]
+#[kani::stub(std::fmt::format, stub_format)]
+fn hp_bad_qc_payload_missing() { handle_proposal_payload_bad(2) }
